@@ -301,6 +301,30 @@ func returnsNilError(r *ssa.Return) bool {
 	return ok && c.IsNil()
 }
 
+// mayReportSuccess: the error result is nil, or the forwarded result of another call (`return f(x)`),
+// which is nil whenever f succeeds; constructed errors (qerrors.New/Propagate) never are.
+func mayReportSuccess(r *ssa.Return) bool {
+	if returnsNilError(r) {
+		return true
+	}
+	idx := errResultIndex(r.Parent().Signature)
+	if idx < 0 || idx >= len(r.Results) {
+		return false
+	}
+	v := r.Results[idx]
+	if ex, ok := v.(*ssa.Extract); ok {
+		v = ex.Tuple
+	}
+	call, ok := v.(*ssa.Call)
+	if !ok {
+		return false
+	}
+	if o := calleeObj(call); o != nil && o.Pkg() != nil && o.Pkg().Path() == rel("qerrors") {
+		return false
+	}
+	return true
+}
+
 func recvOf(c ssa.CallInstruction) ssa.Value {
 	cc := c.Common()
 	if cc.IsInvoke() {
@@ -382,7 +406,7 @@ func runR29(c *Ctx) {
 				continue
 			}
 			obj := calleeObj(call)
-			if obj == nil || obj.Name() != "Next" {
+			if obj == nil || obj.Name() != "Next" && obj.Name() != "Scan" && obj.Name() != "More" {
 				continue
 			}
 			sig := obj.Type().(*types.Signature)
@@ -393,8 +417,12 @@ func runR29(c *Ctx) {
 			if recv == nil {
 				continue
 			}
-			errM := methodOn(recv.Type(), "Err")
-			if errM == nil {
+			// how the iterator reports that it stopped because of a failure: Err() for Next/Scan iterators;
+			// json.Decoder.More() returns false on a read error as well, which only the next Token/Decode reports
+			closers := map[string]bool{"Err": true}
+			if isFuncNamed(obj, "encoding/json", "Decoder", "More") {
+				closers = map[string]bool{"Token": true, "Decode": true}
+			} else if obj.Name() == "More" || methodOn(recv.Type(), "Err") == nil {
 				continue
 			}
 			// is this a loop? the block must be reachable from its "continue" successor
@@ -411,7 +439,7 @@ func runR29(c *Ctx) {
 			if !inLoop {
 				continue
 			}
-			key := fname(fn) + "|loop over " + types.TypeString(deref(recv.Type()), shortQual) + ".Next"
+			key := fname(fn) + "|loop over " + types.TypeString(deref(recv.Type()), shortQual) + "." + obj.Name()
 			root := rootValue(recv)
 			checksErr := func(blk *ssa.BasicBlock) bool {
 				for _, in := range blk.Instrs {
@@ -419,7 +447,7 @@ func runR29(c *Ctx) {
 					if !ok {
 						continue
 					}
-					if o := calleeObj(cl); o != nil && o.Name() == "Err" && recvOf(cl) != nil && rootValue(recvOf(cl)) == root {
+					if o := calleeObj(cl); o != nil && closers[o.Name()] && recvOf(cl) != nil && rootValue(recvOf(cl)) == root {
 						if ok, _ := propagates(cl); ok {
 							return true
 						}
@@ -432,13 +460,13 @@ func runR29(c *Ctx) {
 				if rb == b {
 					continue
 				}
-				if ret, ok := rb.Instrs[len(rb.Instrs)-1].(*ssa.Return); ok && returnsNilError(ret) {
+				if ret, ok := rb.Instrs[len(rb.Instrs)-1].(*ssa.Return); ok && mayReportSuccess(ret) {
 					badRet = ret
 					break
 				}
 			}
 			if badRet != nil {
-				c.bad(key, p.instrPos(iff), fmt.Sprintf("loop ends when Next() returns false, and the success return at %s is reachable without consulting Err(): a failure of the underlying reader/driver is taken for end of input (partial data, no error)", p.instrPos(badRet)))
+				c.bad(key, p.instrPos(iff), fmt.Sprintf("loop ends when "+obj.Name()+"() returns false, and the success return at %s is reachable without consulting "+closerNames(closers)+": a failure of the underlying reader/driver is taken for end of input (partial data, no error)", p.instrPos(badRet)))
 			} else {
 				c.ok(key, p.instrPos(iff), "every nil-error return after the loop exit passes through Err() whose result reaches a sink")
 			}
@@ -766,4 +794,13 @@ func runR24(c *Ctx) {
 			c.ok(key, pos, "count bounds the re-slice / is returned; error reaches a sink")
 		})
 	}
+}
+
+func closerNames(m map[string]bool) string {
+	var ns []string
+	for n := range m {
+		ns = append(ns, n+"()")
+	}
+	sortStrings(ns)
+	return strings.Join(ns, "/")
 }
